@@ -340,7 +340,9 @@ func checkDump(f failer, text string, o dumpOpts, nodes []xnode) dumpStats {
 				if byte(v) != buf.Data[addr] {
 					f.fail("hex-byte-wrong", "%s: line %d: hex column shows %02x at address %s+%d (=%d), the buffer has %02x there (line_bytes %d, addrbase %d)", n.Path, r.Line, v, at, j, addr, buf.Data[addr], L, o.Addrbase)
 				}
-				if a != safeASCII(buf.Data[addr]) {
+				// the character is the byte itself, or '.' for a byte that has no
+				// printable form
+				if bb := buf.Data[addr]; !(a == safeASCII(bb) || (bb < 0x80 && a == rune(bb))) {
 					f.fail("ascii-byte-wrong", "%s: line %d: ascii column shows %q at address %s+%d (=%d), the buffer has %02x there", n.Path, r.Line, string(a), at, j, addr, buf.Data[addr])
 				}
 				if addr == int64(len(buf.Data))-1 && buf.NBits%8 != 0 {
@@ -397,7 +399,9 @@ func checkDump(f failer, text string, o dumpOpts, nodes []xnode) dumpStats {
 				}
 				// the marker
 				m := strings.TrimRight(string(g.rows[truncRow].Hex), " ")
-				if len([]rune(m)) >= 3*L-1 {
+				// a marker cut by the column fills it (or ends in the blank right
+				// before the cut)
+				if len([]rune(m)) >= 3*L-2 {
 					st.UntilCut++
 				} else {
 					sm := untilRE.FindStringSubmatch(m)
